@@ -261,6 +261,7 @@ def crash_resume(args):
             out["crash2"] = {"crashed": r2["crashed"], "label": r2["crash_label"], "exit": r2["exit"]}
         r3 = run_once(rundir, truth, paths, args.get("opts"), sched=rs.get("sched"), fault=None,
                       bufsize=rs.get("bufsize", args.get("bufsize", 8192)), argv_override=argv, logname="stdout.log")
+        r3["orig_argv"] = r1["argv"]
         res = summarize(r3, rundir, truth, want=args.get("want", ()), oracles=args.get("oracles", ()))
         res.update(out)
         res["wall"] = time.time() - t0
